@@ -51,10 +51,14 @@ var ExtVarNotFunc = 3
 var extFuncVar = func(s A) B { return B{} }
 
 type ExtTypeNotFunc struct{}
+
+// a named FUNCTION TYPE is a type, not a function: it cannot be a custom function
+type ExtHookType func(s A) B
+type extHookType2 func(s A) C
 `
 
 var extSelPatterns = []string{"ExtAToB", "extAToC", "ExtTwoSources", "extNoResult", "ExtVarNotFunc", "ExtGeneric", "Nope", "Ext.*", "ext.*", "(e|E)xt.*",
-	".*ToB", ".*To[A-Z]", "ExtOwnCtx", "ExtOwn.*", "(E|e)xtOwn.*", ".*Ctx2?", "ExtOwnCtxWrongName", "extOwnCtx2", "Ext|ExtAToB", "ExtAToB|Ext", "Nope.*", "Ext(Two|Three).*", "extFuncVar", ".*", "[eE]xt[A-C]To[A-C]", "ExtTypeNotFunc",
+	".*ToB", ".*To[A-Z]", "ExtOwnCtx", "ExtOwn.*", "(E|e)xtOwn.*", ".*Ctx2?", "ExtOwnCtxWrongName", "extOwnCtx2", "ExtHookType", "Ext(Hook|ATo).*", "extHookType2", "Ext|ExtAToB", "ExtAToB|Ext", "Nope.*", "Ext(Two|Three).*", "extFuncVar", ".*", "[eE]xt[A-C]To[A-C]", "ExtTypeNotFunc",
 	`.*\QToB`, `Ext\QAToB`, `.*\QToB\E`, `(?i)extatob`, `(Ext)(A)(To)(B)`, `Ext.{4}`}
 
 func runExtSel(e *env) error {
